@@ -6,6 +6,15 @@ import lfht_common as L
 import lfhtx_common as X
 PROGS = ['U0L0/U2L0/L0L0', 'U0U1/U2U5/L0XL0', 'U0L0X/U2L0X/L0L0', 'U3L3/U6L3X/L3XL3', 'U4/U7/L4XL4X', 'U0A1/U2L1/L0XL0X']
 XPROGS = ['U0L0P2/A3A5T/L0NTL3', 'U0R2/A1A5/L0NTL1', 'U0L0N/U2L0N/U7L0NT', 'U0L0P2/L0NL0X/R7TL0N', 'R0R2/R7L0N/L0NTL0N', 'U0L0X/L0P2/L0P7T', 'U3U5L3P6/L3NL5X/TL3NT', 'U0Z2L0P2/U4L0NZ1/R7TL4N', 'U0L0P2/L0L0L0/L0L0T']
+# a walker (full traversal) is suspended at every point while another thread deletes a node of an equal-hash run and uniquely re-adds its key
+WPROGS = ['U1U0/T/L0XU2', 'U0U1/TT/L0XU7', 'U1U0U5/T/L0XR2L1', 'U1R0/T/L0P2L2XU7']
+def walker_cases(ctx):
+    out = []
+    for prog in WPROGS:
+        for p in range(1, 50 if ctx.quick() else 110):
+            for cf in ([('1', '8', 'o')] if ctx.quick() else [('1', '8', 'o'), ('2', '8', 'o'), ('4', '8', 'c')]):
+                out.append((prog, '>0>0>0' + 'a' * 8 + '1b' * p + '>2>2>2>2>2' + 'c' * 8, cf))
+    return out
 def key_never_absent(prog, raw):
     """a key continuously present while it is being replaced is found by every concurrent lookup: programs whose only removals are replacements of a key inserted before the lookups began"""
     ev = X.events(raw); hist, _, _ = X.history(ev)
@@ -30,7 +39,7 @@ def run(ctx):
     ximpl = X.build(ctx)
     fdriver = build_model_driver(ctx, 'flagproto', 'ExtractFlagProto.v', 'flagproto_driver.ml')
     if ximpl:
-        X.run_cases(ctx, 'unique adds / replace', ximpl, X.gen(ctx, XPROGS, 400 if ctx.quick() else 6000, 'C06x', [('2', '8', 'o'), ('1', '8', 'o'), ('4', '8', 'c')]), flag_driver=fdriver, extra_oracle=key_never_absent)
+        X.run_cases(ctx, 'unique adds / replace', ximpl, X.gen(ctx, XPROGS, 400 if ctx.quick() else 6000, 'C06x', [('2', '8', 'o'), ('1', '8', 'o'), ('4', '8', 'c')]) + walker_cases(ctx), flag_driver=fdriver, extra_oracle=key_never_absent)
     return finish(ctx, trusted=L.TRUSTED + ['extraction of FlagProto: ExtrOcamlBasic only; ocaml/flagproto_driver.ml; projection tools/lfhtx_common.py project_flags() (trusted)',
                   'modelled by FlagProto: the flag bits and ownership successes of one next word (pointer changes abstracted to "link" accesses); traversal-level uniqueness under concurrency is an oracle, the theorem is sequential'],
                   rule='corpus + parking sweeps + bursty schedules of concurrent add_unique / add_replace / replace / del / lookup + next_duplicate / traversal on keys shared by three entries, with resizes')
